@@ -172,6 +172,9 @@ func runC01(r *Run) {
 			n := 1 + r.W.Pick(6)
 			for i := 0; i < n; i++ {
 				sz := c01Size(r, curThr, big && w == 0 && i == 0)
+				if sz < 6 {
+					sz = 6 // every payload of the multi variant carries its (writer, index) tag, so attribution is unambiguous
+				}
 				if curThr >= 0 && sz > 1<<21-1024 {
 					sz = 1<<21 - 1024
 				}
